@@ -1,6 +1,7 @@
 package main
 
 import (
+	"net/url"
 	"unicode/utf8"
 	"context"
 	"fmt"
@@ -319,6 +320,80 @@ func extraC02(r *Run) {
 			p.Details = append(p.Details, a)
 		}
 		return status.FromProto(p)
+	}
+	// every way the response can be cut short: record the byte stream of a streaming reply, then replay
+	// every proper prefix of it (clean end and abrupt end) — the client must never report success
+	for i := 0; i < r.Budget(6, 60); i++ {
+		kind := []string{"sstream", "cstream"}[i%2]
+		nmsg := rng.Intn(3)
+		var herr error
+		if rng.Bool() {
+			herr = status.Error(codes.Code(1+rng.Intn(16)), "cut me")
+		}
+		svr := &scriptServer{}
+		svr.sstream = func(req *Msg, s grpchantesting.TestService_ServerStreamServer) error {
+			for j := 0; j < nmsg; j++ {
+				s.Send(&Msg{Count: int32(j), Payload: rng.Bytes(rng.Intn(20))})
+			}
+			return herr
+		}
+		svr.cstream = func(s grpchantesting.TestService_ClientStreamServer) error {
+			for {
+				if _, err := s.Recv(); err != nil {
+					break
+				}
+			}
+			if herr != nil {
+				return herr
+			}
+			return s.SendAndClose(&Msg{Count: 7})
+		}
+		call := func(ch grpc.ClientConnInterface) error {
+			cli := grpchantesting.NewTestServiceClient(ch)
+			ctx, cancel := context.WithCancel(context.Background())
+			defer cancel()
+			if kind == "sstream" {
+				ss, err := cli.ServerStream(ctx, &Msg{})
+				if err != nil {
+					return err
+				}
+				for {
+					if _, err := ss.Recv(); err != nil {
+						return err
+					}
+				}
+			}
+			cs, err := cli.ClientStream(ctx)
+			if err != nil {
+				return err
+			}
+			cs.Send(&Msg{})
+			_, err = cs.CloseAndRecv()
+			return err
+		}
+		hm := newHTTPMem(svr)
+		fullErr := call(hm.ch)
+		hm.tr.handlerWG.Wait()
+		body := hm.tr.Recorded()
+		hdr := hm.tr.lastHdr
+		u, _ := url.Parse("http://mem.test/")
+		for k := 0; k < len(body); k++ {
+			for _, abrupt := range []bool{false, true} {
+				rt := &replayTransport{code: 200, hdr: hdr, body: body[:k]}
+				if abrupt {
+					rt.endErr = errAbrupt
+				}
+				err := call(&httpgrpc.Channel{Transport: rt, BaseURL: u})
+				r.Eval(fmt.Sprint("cut", kind, nmsg, herr, k, abrupt), true)
+				r.Count("truncation:" + kind)
+				if err == nil || err == io.EOF {
+					r.Violate("http/truncation/"+kind+"/reported-as-success", "a response that is lost, truncated or cannot be decoded is always reported as an error",
+						sprintf("%s reply of %d bytes (handler: %d messages then %v) cut after %d bytes (abrupt=%v): client reported %v", kind, len(body), nmsg, herr, k, abrupt, err),
+						map[string]interface{}{"transport": "http", "kind": kind, "body_hex": hexOrDash(body), "cut": k, "abrupt": abrupt}, canonErr(err))
+				}
+			}
+		}
+		_ = fullErr
 	}
 	ref := refTransport()
 	for i := 0; i < r.Budget(80, 2500); i++ {
